@@ -130,7 +130,9 @@ def step (s : St) : List String → St × String
         let m := String.join (idx.map fun i => toString (getMatchScore s.v d P i).toNat)
         let sp := String.join (idx.map fun i => if Spec.matchesPattern d P i then "1" else "0")
         let amb := String.join (idx.map fun _ => "0")
-        (s, s!"pat {Pattern.render P} codes={codes} amb={amb} m={m} s={sp}")
+        let alts := ",".intercalate ((List.range (P.length + 1)).map fun a =>
+          String.join (idx.map fun i => toString (getMatchScoreAlt s.v d P a i).toNat))
+        (s, s!"pat {Pattern.render P} codes={codes} amb={amb} alts={alts} m={m} s={sp}")
       else (s, "pat ERR:invalid")
     | none, _ => (s, "pat ERR:nodoc")
     | _, none => (s, "pat ERR:parse")
@@ -147,7 +149,8 @@ def step (s : St) : List String → St × String
       let m := String.join (idx.map fun i => toString (getMatchScoreFn s.v d p i).toNat)
       let sp := String.join (idx.map fun i => if Spec.matchesFn d p i then "1" else "0")
       let amb := String.join (idx.map fun _ => "0")
-      (s, s!"pat {p.render} codes={codes} amb={amb} m={m} s={sp}")
+      -- one alternative: index 0 is the pattern, index 1 is past the end
+      (s, s!"pat {p.render} codes={codes} amb={amb} alts={m},{amb} m={m} s={sp}")
     | none, _, _, _ => (s, "pat ERR:nodoc")
     | _, _, _, _ => (s, "pat ERR:parse")
   | _ => (s, "bad")
